@@ -47,9 +47,13 @@ struct Bh {
     /// one poll per history may happen in a task tick whose cooperative budget is used up
     /// (tokio's semaphore then answers Pending although a permit is free)
     starved_poll: bool,
+    /// the inner call's future is slow to drop: one armed caller is polled from inside its Drop
+    /// (on another thread a caller could be polled at that moment), see trv_core::nest
+    slow_drop: bool,
 }
 
 struct X {
+    nest: Option<std::sync::Arc<trv_core::nest::Nest>>,
     svc: Svc,
     /// snapshot before a first poll: (caller, inner live, queued)
     first_poll_pre: Option<(usize, usize, usize)>,
@@ -69,7 +73,7 @@ fn queued(w: &World) -> Vec<usize> {
     (0..w.callers.len()).filter(|&c| w.callers[c].is_live() && w.callers[c].polls > 0 && !has_inner(w, c)).collect()
 }
 
-fn do_arrive(w: &mut World, svc: &mut Svc, c: usize, single_handle: bool) {
+fn do_arrive(w: &mut World, svc: &mut Svc, c: usize, single_handle: bool, nest: &Option<std::sync::Arc<trv_core::nest::Nest>>) {
     let mut own;
     let s: &mut Svc = if single_handle {
         svc
@@ -94,7 +98,13 @@ fn do_arrive(w: &mut World, svc: &mut Svc, c: usize, single_handle: bool) {
         })
     }));
     match r {
-        Ok(fut) => w.set_arrived(c, req, fut),
+        Ok(fut) => {
+            let fut = match nest {
+                Some(n) => n.wrap(c, fut, w.callers[c].flag.clone()),
+                None => fut,
+            };
+            w.set_arrived(c, req, fut)
+        }
         Err(_) => w.set_resolved_at_arrival(c, req, Outcome::Layer("PanickedInCall".into())),
     }
 }
@@ -105,7 +115,7 @@ impl Scenario for Bh {
         self.prop
     }
     fn label(&self) -> String {
-        format!("bulkhead max={} max_wait={:?} callers={}{}{}", self.max, self.max_wait, self.callers, if self.late_ticks > 0 { " late-polls" } else { "" }, if self.shave_us > 0 { format!(" minus {}us", self.shave_us) } else if self.single_handle { " one-handle".to_string() } else if self.keep_done { " finished-futures-kept".to_string() } else if self.sync_panic_first { " first-inner-call-panics-in-call()".to_string() } else if self.preset_first { " builder_order=small()_preset_first".to_string() } else if self.listeners { " with-listeners".to_string() } else if self.starved_poll { " one-budget-starved-poll".to_string() } else { String::new() })
+        format!("bulkhead max={} max_wait={:?} callers={}{}{}", self.max, self.max_wait, self.callers, if self.late_ticks > 0 { " late-polls" } else { "" }, if self.shave_us > 0 { format!(" minus {}us", self.shave_us) } else if self.single_handle { " one-handle".to_string() } else if self.keep_done { " finished-futures-kept".to_string() } else if self.sync_panic_first { " first-inner-call-panics-in-call()".to_string() } else if self.preset_first { " builder_order=small()_preset_first".to_string() } else if self.listeners { " with-listeners".to_string() } else if self.starved_poll { " one-budget-starved-poll".to_string() } else if self.slow_drop { " inner-future-slow-to-drop".to_string() } else { String::new() })
     }
     fn callers(&self) -> usize {
         self.callers
@@ -146,10 +156,19 @@ impl Scenario for Bh {
         }
         // (the service is made by a clone of the layer, as a router that clones its layers per route does)
         let svc = layer.clone().layer(GatedInner::new(w.inner.clone()));
-        X { svc, first_poll_pre: None, w_release_and_timeout: false, completes_at: vec![] }
+        let nest = if self.slow_drop {
+            let n = trv_core::nest::Nest::new();
+            let n2 = n.clone();
+            w.inner.lock().unwrap().on_drop = Some(std::sync::Arc::new(move |_k| n2.hook()));
+            Some(n)
+        } else {
+            None
+        };
+        X { nest, svc, first_poll_pre: None, w_release_and_timeout: false, completes_at: vec![] }
     }
     fn arrive(&self, w: &mut World, x: &mut X, c: usize, _v: u8) {
-        do_arrive(w, &mut x.svc, c, self.single_handle);
+        let nest = x.nest.clone();
+        do_arrive(w, &mut x.svc, c, self.single_handle, &nest);
     }
     fn outs(&self) -> Vec<Out> {
         vec![Out::Ok, Out::Err(0), Out::Panic]
@@ -166,21 +185,36 @@ impl Scenario for Bh {
     }
     fn ctl_actions(&self, w: &World, _x: &X) -> Vec<u8> {
         // Ctl(0): the next poll finds the task's cooperative budget used up
+        let mut v = vec![];
         if self.starved_poll && !w.starve_next_poll && (0..w.callers.len()).any(|c| w.pollable(c)) {
-            vec![0]
-        } else {
-            vec![]
+            v.push(0);
         }
+        // Ctl(10 + j): arm caller j to be polled from inside the next slow drop
+        if let Some(n) = &_x.nest {
+            if n.armed().is_none() {
+                v.extend((0..w.callers.len().min(self.callers)).filter(|&j| w.pollable(j)).map(|j| 10 + j as u8));
+            }
+        }
+        v
     }
-    fn apply_ctl(&self, w: &mut World, _x: &mut X, _ctl: u8) {
-        w.starve_next_poll = true;
+    fn apply_ctl(&self, w: &mut World, x: &mut X, ctl: u8) {
+        if ctl >= 10 {
+            if let Some(n) = &x.nest {
+                n.arm(ctl as usize - 10);
+            }
+        } else {
+            w.starve_next_poll = true;
+        }
     }
     fn before(&self, w: &World, x: &mut X, a: &Action) {
         x.first_poll_pre = None;
         if let Action::Poll(c) = a {
             let c = *c as usize;
             // (a starved first poll cannot take the slot: "admitted at once" is not judged for it)
-            if w.callers[c].polls == 0 && !w.starve_next_poll {
+            // (... nor while a caller that was polled from inside a slow drop waits at the head
+            // of the semaphore's queue: the freed permit is handed to it)
+            let handed_over = x.nest.as_ref().map_or(false, |n| n.fired().iter().any(|(j, _)| *j != c && w.callers[*j].is_live() && !has_inner(w, *j)));
+            if w.callers[c].polls == 0 && !w.starve_next_poll && !handed_over {
                 x.first_poll_pre = Some((c, w.inner_live(), queued(w).len()));
             }
         }
@@ -192,7 +226,7 @@ impl Scenario for Bh {
         let site = "bulkhead";
         let now = w.now_ms();
         // C01: never more than `max` inside the inner service
-        let live = w.inner_live();
+        let live = w.inner_live().max(w.inner.lock().unwrap().peak_live);
         if live > self.max {
             out.push(Viol::new("over_admission", site, format!("{} inner calls live with max_concurrent_calls={}", live, self.max)));
         }
@@ -318,7 +352,8 @@ impl Scenario for Bh {
             let c = w.add_caller();
             debug_assert_eq!(c, base + i);
             w.begin_step();
-            do_arrive(w, &mut x.svc, c, self.single_handle);
+            let nest = x.nest.clone();
+        do_arrive(w, &mut x.svc, c, self.single_handle, &nest);
             if w.callers[c].is_live() {
                 w.poll_caller(c);
             }
@@ -359,14 +394,18 @@ fn configs(prop: &'static str, tier: Tier) -> Vec<Bh> {
     let mut v = vec![];
     // listeners registered for every event type
     for max_wait in [None, Some(0u64), Some(20)] {
-        v.push(Bh { prop, max: 1, max_wait, callers: 3, max_ticks: tier.pick(3, 4), max_drops: 1, max_panics: 1, late_ticks: 0, shave_us: 0, single_handle: false, grid: 10, keep_done: false, sync_panic_first: false, preset_first: false, listeners: true, starved_poll: false });
+        v.push(Bh { prop, max: 1, max_wait, callers: 3, max_ticks: tier.pick(3, 4), max_drops: 1, max_panics: 1, late_ticks: 0, shave_us: 0, single_handle: false, grid: 10, keep_done: false, sync_panic_first: false, preset_first: false, listeners: true, starved_poll: false, slow_drop: false });
+    }
+    // an inner call whose future is slow to drop (a caller polled from inside that drop)
+    for max_wait in [None, Some(20u64)] {
+        v.push(Bh { prop, max: 1, max_wait, callers: 3, max_ticks: tier.pick(1, 2), max_drops: 1, max_panics: 0, late_ticks: 0, shave_us: 0, single_handle: false, grid: 10, keep_done: false, sync_panic_first: false, preset_first: false, listeners: false, starved_poll: false, slow_drop: true });
     }
     // one budget-starved poll per history
     for max_wait in [Some(0u64), Some(20)] {
-        v.push(Bh { prop, max: 1, max_wait, callers: 3, max_ticks: tier.pick(3, 4), max_drops: 0, max_panics: 0, late_ticks: 0, shave_us: 0, single_handle: false, grid: 10, keep_done: false, sync_panic_first: false, preset_first: false, listeners: false, starved_poll: true });
+        v.push(Bh { prop, max: 1, max_wait, callers: 3, max_ticks: tier.pick(3, 4), max_drops: 0, max_panics: 0, late_ticks: 0, shave_us: 0, single_handle: false, grid: 10, keep_done: false, sync_panic_first: false, preset_first: false, listeners: false, starved_poll: true, slow_drop: false });
     }
     // a wait of Duration::MAX (the timer cannot represent the deadline)
-    v.push(Bh { prop, max: 1, max_wait: Some(WAIT_FOR_EVER), callers: 3, max_ticks: tier.pick(2, 3), max_drops: 1, max_panics: 0, late_ticks: 0, shave_us: 0, single_handle: false, grid: 10, keep_done: false, sync_panic_first: false, preset_first: false, listeners: false, starved_poll: false });
+    v.push(Bh { prop, max: 1, max_wait: Some(WAIT_FOR_EVER), callers: 3, max_ticks: tier.pick(2, 3), max_drops: 1, max_panics: 0, late_ticks: 0, shave_us: 0, single_handle: false, grid: 10, keep_done: false, sync_panic_first: false, preset_first: false, listeners: false, starved_poll: false, slow_drop: false });
     for max in [1usize, 2] {
         for max_wait in [None, Some(0), Some(20), Some(25)] {
             let callers = tier.pick(3, 4).max(max + 1);
@@ -387,39 +426,40 @@ fn configs(prop: &'static str, tier: Tier) -> Vec<Bh> {
                 preset_first: false,
                 listeners: false,
                 starved_poll: false,
+                slow_drop: false,
             });
         }
     }
     // a wait in the seconds range (2.02 s, explored on a 1.01 s grid): whole seconds plus a
     // sub-second part
-    v.push(Bh { prop, max: 1, max_wait: Some(2020), callers: 3, max_ticks: tier.pick(3, 4), max_drops: 1, max_panics: 0, late_ticks: 0, shave_us: 0, single_handle: false, grid: 1010, keep_done: false, sync_panic_first: false, preset_first: false, listeners: false, starved_poll: false });
+    v.push(Bh { prop, max: 1, max_wait: Some(2020), callers: 3, max_ticks: tier.pick(3, 4), max_drops: 1, max_panics: 0, late_ticks: 0, shave_us: 0, single_handle: false, grid: 1010, keep_done: false, sync_panic_first: false, preset_first: false, listeners: false, starved_poll: false, slow_drop: false });
     // the builder calls in another order: reject_when_full() first, the wait (or a second
     // reject_when_full()) after it, the limit last - the later call wins
     for max_wait in [Some(0u64), Some(20)] {
-        v.push(Bh { prop, max: 1, max_wait, callers: 3, max_ticks: tier.pick(3, 4), max_drops: 1, max_panics: 0, late_ticks: 0, shave_us: 0, single_handle: false, grid: 10, keep_done: false, sync_panic_first: false, preset_first: true, listeners: false, starved_poll: false });
+        v.push(Bh { prop, max: 1, max_wait, callers: 3, max_ticks: tier.pick(3, 4), max_drops: 1, max_panics: 0, late_ticks: 0, shave_us: 0, single_handle: false, grid: 10, keep_done: false, sync_panic_first: false, preset_first: true, listeners: false, starved_poll: false, slow_drop: false });
     }
     // the first inner call panics inside call() itself
     for max_wait in [None, Some(20u64)] {
-        v.push(Bh { prop, max: 1, max_wait, callers: 3, max_ticks: tier.pick(2, 3), max_drops: 1, max_panics: 0, late_ticks: 0, shave_us: 0, single_handle: false, grid: 10, keep_done: false, sync_panic_first: true, preset_first: false, listeners: false, starved_poll: false });
+        v.push(Bh { prop, max: 1, max_wait, callers: 3, max_ticks: tier.pick(2, 3), max_drops: 1, max_panics: 0, late_ticks: 0, shave_us: 0, single_handle: false, grid: 10, keep_done: false, sync_panic_first: true, preset_first: false, listeners: false, starved_poll: false, slow_drop: false });
     }
     // finished futures stay alive until dropped explicitly
     for max_wait in [None, Some(20u64)] {
-        v.push(Bh { prop, max: 1, max_wait, callers: 3, max_ticks: tier.pick(2, 3), max_drops: tier.pick(2, 3), max_panics: 0, late_ticks: 0, shave_us: 0, single_handle: false, grid: 10, keep_done: true, sync_panic_first: false, preset_first: false, listeners: false, starved_poll: false });
+        v.push(Bh { prop, max: 1, max_wait, callers: 3, max_ticks: tier.pick(2, 3), max_drops: tier.pick(2, 3), max_panics: 0, late_ticks: 0, shave_us: 0, single_handle: false, grid: 10, keep_done: true, sync_panic_first: false, preset_first: false, listeners: false, starved_poll: false, slow_drop: false });
     }
     // all callers through the one original handle (no clone alive between calls)
     for max_wait in [None, Some(20u64)] {
-        v.push(Bh { prop, max: 1, max_wait, callers: 3, max_ticks: tier.pick(3, 4), max_drops: 1, max_panics: 0, late_ticks: 0, shave_us: 0, single_handle: true, grid: 10, keep_done: false, sync_panic_first: false, preset_first: false, listeners: false, starved_poll: false });
+        v.push(Bh { prop, max: 1, max_wait, callers: 3, max_ticks: tier.pick(3, 4), max_drops: 1, max_panics: 0, late_ticks: 0, shave_us: 0, single_handle: true, grid: 10, keep_done: false, sync_panic_first: false, preset_first: false, listeners: false, starved_poll: false, slow_drop: false });
     }
     // waits with a sub-millisecond part: 0.5 ms and 19.75 ms
     for (max_wait, shave_us) in [(1u64, 500u64), (20, 250)] {
-        v.push(Bh { prop, max: 1, max_wait: Some(max_wait), callers: 3, max_ticks: tier.pick(3, 4), max_drops: 1, max_panics: 0, late_ticks: 0, shave_us, single_handle: false, grid: 10, keep_done: false, sync_panic_first: false, preset_first: false, listeners: false, starved_poll: false });
+        v.push(Bh { prop, max: 1, max_wait: Some(max_wait), callers: 3, max_ticks: tier.pick(3, 4), max_drops: 1, max_panics: 0, late_ticks: 0, shave_us, single_handle: false, grid: 10, keep_done: false, sync_panic_first: false, preset_first: false, listeners: false, starved_poll: false, slow_drop: false });
     }
     // a late executor: woken callers (permit handed over, wait deadline passed) are polled up to two ticks late
     for (max, max_wait) in [(1usize, Some(20u64)), (1, None), (2, Some(20))] {
         if tier == Tier::Quick && max == 2 {
             continue;
         }
-        v.push(Bh { prop, max, max_wait, callers: 3, max_ticks: tier.pick(4, 5), max_drops: tier.pick(1, 2), max_panics: tier.pick(0, 1), late_ticks: 2, shave_us: 0, single_handle: false, grid: 10, keep_done: false, sync_panic_first: false, preset_first: false, listeners: false, starved_poll: false });
+        v.push(Bh { prop, max, max_wait, callers: 3, max_ticks: tier.pick(4, 5), max_drops: tier.pick(1, 2), max_panics: tier.pick(0, 1), late_ticks: 2, shave_us: 0, single_handle: false, grid: 10, keep_done: false, sync_panic_first: false, preset_first: false, listeners: false, starved_poll: false, slow_drop: false });
     }
     v
 }
